@@ -14,7 +14,7 @@ from . import canon, core
 
 REACTIONS: dict = {}
 CFG = None
-THREE_BODY_RELABEL = ("gpp_h", "gpp_c", "gpp1_h", "lc_h", "lc_c", "j3pi_h", "ksp_h", "ppg_h", "ppg_c", "d3pi_h")
+THREE_BODY_RELABEL = ("gpp_h", "gpp_c", "gpp1_h", "lc_h", "lc_c", "j3pi_h", "ksp_h", "ppg_h", "ppg_c", "d3pi_h", "kkpi_h", "dkpp_h", "etac_c")
 
 
 class InjectedFault(Exception):
